@@ -10,6 +10,7 @@ import (
 	"github.com/keybase/saltpack"
 	"verifharness/internal/keys"
 	"verifharness/internal/prng"
+	"verifharness/internal/script"
 )
 
 func verdict(err error) string {
@@ -103,8 +104,47 @@ func classifyCorpus(r *prng.R) []struct {
 		msg   []byte
 	}{3, 2, s.msg})
 	_ = add
+	// messages of the library itself whose header packet needs a bin16 / bin32
+	// length (5 and 800 recipients: the header is > 255 and > 65535 bytes long)
+	for _, nrec := range []int{5, 800} {
+		sec := make([]byte, 32)
+		sec[0] = 9
+		cr := &keys.EphCreator{Secret: sec}
+		var rs []saltpack.BoxPublicKey
+		for i := 0; i < nrec; i++ {
+			rs = append(rs, keys.NewBoxSecret(r.Bytes(32), false, nil, cr).Pub)
+		}
+		for major := 1; major <= 2; major++ {
+			var m []byte
+			var err error
+			script.With(&prngReader{r}, func() { m, err = saltpack.Seal(saltpack.Version{Major: major}, []byte("many recipients"), nil, rs) })
+			if err != nil {
+				panic(err)
+			}
+			out = append(out, struct {
+				mode  int
+				major int
+				msg   []byte
+			}{0, major, m})
+		}
+		var m []byte
+		var err error
+		script.With(&prngReader{r}, func() { m, err = saltpack.SigncryptSeal([]byte("many recipients"), cr, nil, rs, nil) })
+		if err != nil {
+			panic(err)
+		}
+		out = append(out, struct {
+			mode  int
+			major int
+			msg   []byte
+		}{3, 2, m})
+	}
 	return out
 }
+
+type prngReader struct{ r *prng.R }
+
+func (p *prngReader) Read(b []byte) (int, error) { return copy(b, p.r.Bytes(len(b))), nil }
 
 func armorTypeFor(mode int) saltpack.MessageType {
 	switch mode {
